@@ -36,8 +36,9 @@ namespace fastscapelib
                 std::unique_lock<std::mutex> lk(m_cv_m);
                 ++m_paused_count;
                 FASTSCAPELIB_VERIF_SYNC(k_rmw_done, s_paused_count, this, i);
-                FASTSCAPELIB_VERIF_CV_WAIT(s_cv, this, lk)
-                m_cv.wait(lk);
+                while (m_pause_requested)
+                    FASTSCAPELIB_VERIF_CV_WAIT(s_cv, this, lk)
+                    m_cv.wait(lk);
                 --m_paused_count;
                 FASTSCAPELIB_VERIF_SYNC(k_rmw_done, s_paused_count, this, i);
             };
@@ -80,6 +81,10 @@ namespace fastscapelib
         {
             wait();
             set_tasks(m_pause_jobs);
+            {
+                std::lock_guard<std::mutex> lk(m_cv_m);
+                m_pause_requested = true;
+            }
             run_tasks();
             m_paused = true;
 
@@ -97,6 +102,10 @@ namespace fastscapelib
     {
         if (m_paused)
         {
+            {
+                std::lock_guard<std::mutex> lk(m_cv_m);
+                m_pause_requested = false;
+            }
             FASTSCAPELIB_VERIF_SYNC(k_cv_notify_all, s_cv, this, 0);
             m_cv.notify_all();
             m_paused = false;
